@@ -124,6 +124,13 @@ func run(c *h.Ctx, cs Case) {
 			{"and", pol.Stmt{Op: "and", Sub: []pol.Stmt{likeS, likeS}}, sv, want},
 			{"or", pol.Stmt{Op: "or", Sub: []pol.Stmt{{Op: "==", Sel: sel.Sel{{Kind: "id"}}, Lit: &other}, likeS}}, sv, want},
 			{"any-in-not", pol.Stmt{Op: "not", Sub: []pol.Stmt{{Op: "any", Sel: sel.Sel{{Kind: "id"}}, Sub: []pol.Stmt{likeS}}}}, val.List(sv), !want},
+			{"not-not", pol.Stmt{Op: "not", Sub: []pol.Stmt{{Op: "not", Sub: []pol.Stmt{likeS}}}}, sv, want},
+			{"not-not-not", pol.Stmt{Op: "not", Sub: []pol.Stmt{{Op: "not", Sub: []pol.Stmt{{Op: "not", Sub: []pol.Stmt{likeS}}}}}}, sv, !want},
+			{"and-in-not", pol.Stmt{Op: "not", Sub: []pol.Stmt{{Op: "and", Sub: []pol.Stmt{likeS, likeS}}}}, sv, !want},
+			{"or-in-not", pol.Stmt{Op: "not", Sub: []pol.Stmt{{Op: "or", Sub: []pol.Stmt{likeS}}}}, sv, !want},
+			{"all-in-not", pol.Stmt{Op: "not", Sub: []pol.Stmt{{Op: "all", Sel: sel.Sel{{Kind: "id"}}, Sub: []pol.Stmt{likeS}}}}, val.List(sv, sv), !want},
+			{"not-in-all", pol.Stmt{Op: "all", Sel: sel.Sel{{Kind: "id"}}, Sub: []pol.Stmt{{Op: "not", Sub: []pol.Stmt{likeS}}}}, val.List(sv), !want},
+			{"not-in-or", pol.Stmt{Op: "or", Sub: []pol.Stmt{{Op: "not", Sub: []pol.Stmt{likeS}}}}, sv, !want},
 		} {
 			for _, viaIPLD := range []bool{false, true} {
 				p, err := pol.Policy{w.st}.Build(viaIPLD)
@@ -193,7 +200,15 @@ func drawBytes(t *rapid.T, alpha []byte, label string) string {
 
 func draw(t *rapid.T) Case {
 	var cs Case
-	switch rapid.IntRange(0, 12).Draw(t, "mode") {
+	switch rapid.IntRange(0, 14).Draw(t, "mode") {
+	case 13, 14:
+		// a look-alike of a member: one character of an instance replaced by what a forgiving comparison would
+		// equate with it (the other letter case, a full-width or accented twin, a composed / decomposed spelling,
+		// a space where there is none); always evaluated in every position of a policy
+		cs.Pat = drawStr(t, "pat")
+		cs.Str = lookalike(t, instance(t, cs.Pat))
+		cs.Wrap = true
+		return cs
 	case 12:
 		// sized: a pattern of n atoms for n anywhere in 0..300 (boundaries of machine words, small
 		// fixed arrays and length bytes sit there), with an instance of its language or a near miss
@@ -249,6 +264,24 @@ func draw(t *rapid.T) Case {
 	}
 	cs.Wrap = rapid.IntRange(0, 3).Draw(t, "wrap") == 0
 	return cs
+}
+
+var twins = map[rune][]string{'a': {"A", "\uff41", "\u0430", "á", "a\u0301"}, 'b': {"B", "\uff42", "\u0184"}, 'é': {"É", "e\u0301", "e", "è"},
+	'*': {"\uff0a", "\u2217", "%2a"}, '\\': {"/", "\uff3c"}, 'z': {"Z"}}
+
+func lookalike(t *rapid.T, s string) string {
+	rs := []rune(s)
+	var at []int
+	for i, r := range rs {
+		if _, ok := twins[r]; ok {
+			at = append(at, i)
+		}
+	}
+	if len(at) == 0 {
+		return s + rapid.SampledFrom([]string{" ", "\n", "\x00", "\u200b"}).Draw(t, "tail")
+	}
+	i := rapid.SampledFrom(at).Draw(t, "twin_at")
+	return string(rs[:i]) + rapid.SampledFrom(twins[rs[i]]).Draw(t, "twin") + string(rs[i+1:])
 }
 
 var prop = h.Define(P, "glob", draw, run)
